@@ -610,3 +610,6 @@ PROPS["C15"]["rule"] += " The actions of scheduled rules report the `location` a
 PROPS["C11"]["rule"] += (" Besides the solo-vs-concurrent comparison, everything an event or search returns must carry the client's own "
                          "tags (this also holds in the solo runs, which share the process with whatever ran before).")
 PROPS["C18"]["rule"] += " A third of the facts and events carry a nested argument shape (lists directly inside lists with maps below, empty containers)."
+PROPS["C12"]["rule"] += (" Half of the workloads run with schedule noise: the location's timers are on and a PointHook on every client "
+                         "context (called by rulio whenever a timed section ends, i.e. after the locks of a state or location operation "
+                         "are released) yields or sleeps for 40-250 us, pseudo-randomly from the case.")
